@@ -325,6 +325,28 @@ def build(tier, repo):
                        {X_ for d_, Xs in derived.items() for X_ in Xs if d_ != v and re.search(r"\b%s\b" % d_, rhs)}
                 if src_:
                     derived.setdefault(v, set()).update(src_)
+        # an index / length computed from offsets or running indices of two different buffers (`np = ip - ox - nlq` with ip
+        # running in y): the difference is only right while the two offsets happen to be equal
+        for ma in re.finditer(r"\b([A-Za-z_]\w*)\s*=\s*([^;,=][^;,]*)", txt):
+            v, rhs = ma.group(1), ma.group(2)
+            srcs = {}
+            for o in offvars:
+                if re.search(r"\b%s\b" % o, rhs):
+                    srcs[o] = {offvars[o]}
+            for d_, Xs in derived.items():
+                if d_ != v and re.search(r"\b%s\b" % d_, rhs):
+                    srcs[d_] = set(Xs)
+            if len(srcs) < 2:
+                continue
+            key = "%s:`%s = %s` combines indices of one buffer" % (cfn, v, " ".join(rhs.split())[:40])
+            where = "src/C/misc_solvers.c:%s:%d" % (cfn, c.line_of(node["b"] + ma.start()))
+            mats_ = set().union(*srcs.values())
+            if len(mats_) == 1:
+                r4.ok(key, where)
+            else:
+                r4.violation(key, where,
+                             "`%s` is computed from %s, which index different buffers (%s): the value is right only when their offsets coincide"
+                             % (v, ", ".join(sorted(srcs)), ", ".join(sorted(mats_))), "indices of one buffer", sorted(srcs))
         for mt in re.finditer(r"MAT_BUF[DZI]?\(\s*(\w+)\s*\)\s*((?:\+\s*[\w*() ]+?)+)\s*[,)]", txt):
             X, tail = mt.group(1), mt.group(2)
             for v, Xs in derived.items():
